@@ -9,7 +9,7 @@ RULE = ("cases = every point of the integer grid (radii, heights 1..G; distances
         "frustum object that was asked about other spheres before) (axis directions incl. oblique and generic, "
         "frustum given from either end, offsets) and one of 3 length units (volumes scale by unit^3); non-trivial = a two-object case; "
         "distinct by (kind, parameters)")
-UNITS = [1.0, 0.5, 0.37]
+UNITS = [1.0, 0.5, 0.37, 1e-6, 2.5e4]          # the last two only in the extreme-units stage (metres for micrometres; very large solids)
 DIRS = [(1, 0, 0), (0, 0, -1), (2 / 3, 2 / 3, 1 / 3), (0.6, 0.8, 0), (0.3, -0.5, 0.81), (0, 1, 0), (-2 / 7, 3 / 7, 6 / 7)]
 ORGS = [(0, 0, 0), (5, -3, 2), (0, 0, 0), (-11, 4, 0.5), (100, 200, -300), (1, 1, 1), (0, 0, 0)]
 # far placements (atlas-sized coordinates): the volume of a solid does not depend on where it sits
@@ -66,6 +66,9 @@ def nontrivial(c):
 def run(ctx):
     cases, path = ctx.gen("Gen_VolPrim", "Gen_VolPrim.%s.cfg" % ctx.tier)       # ASSUME: Code = Truth on the whole grid, every region reached
     ctx.run_cases("grid", cases, path, execute, "Judge_VolPrim", keyfn, nontrivial)
+    ext = [dict(c, unit=3 + k % 2) for k, c in enumerate(cases)][:: (2 if ctx.tier == "quick" else 1)]
+    p = ctx.write_cases("extreme-units", ext)
+    ctx.run_cases("extreme-units", ext, p, execute, "Judge_VolPrim", keyfn, nontrivial)
     far = [dict(c, far=k % 2) for k, c in enumerate(cases) if c["k"] not in ("sphere", "cap")][:: (2 if ctx.tier == "quick" else 1)]
     p = ctx.write_cases("far-from-origin", far)
     ctx.run_cases("far-from-origin", far, p, execute, "Judge_VolPrim", keyfn, nontrivial)
